@@ -82,10 +82,17 @@ let run (line : string) : string =
   expect t "M";
   let slack = next_z t in
   let guard = next_z t in
+  (* optionally the schedule to run (thread, clock) -- built by the check from the observations of a scripted
+     two-requester scenario; otherwise the sequential schedule is derived here *)
+  let given_sched =
+    (match t.rest with
+     | "SCHED" :: _ -> ignore (next t);
+         Some (next_list t (fun t -> let tid = next_int t in let tm = next_z t in (tid, tm)))
+     | _ -> None) in
   expect t "scn";
   let _id = next t in
   let lsec = next_int t in
-  let lus = zs (string_of_int (lsec * 1000000)) in
+  let lus = zs (string_of_int ((if lsec < 0 then 10 else lsec) * 1000000)) in   (* unset: SetDefault(expire-cache, 10) *)
   expect t "NC"; let clusters = Array.of_list (next_list t (fun t -> unhex (next t))) in
   expect t "NG"; let groups = Array.of_list (next_list t (fun t -> unhex (next t))) in
   expect t "NV"; let contents = Array.of_list (next_list t read_content) in
@@ -111,7 +118,7 @@ let run (line : string) : string =
     let e = match next t with
       | "U" -> let tm = next_z t in let ci = next_int t in let gi = next_int t in let v = next_int t in U (tm, ci, gi, v)
       | "L" -> let tm = next_z t in let c = unhex (next t) in let g = unhex (next t) in let v = next_int t in Lk (tm, c, g, v)
-      | "W" -> ignore (next t); ignore (next t); Stall
+      | "W" | "X" -> ignore (next t); ignore (next t); Stall
       | "Q" -> let i = next_int t in let tm = next_z t in let ci = next_int t in let gi = next_int t in
                let sa = next_int t = 1 in Q (i, tm, ci, gi, sa)
       | "R" -> let i = next_int t in let tm = next_z t in let c = unhex (next t) in let g = unhex (next t) in
@@ -164,9 +171,10 @@ let run (line : string) : string =
 
   (* ---------------- REPLAY ---------------- *)
   let replay =
-    if !has_burst then "-" else begin
-      let reqs = List.init nreq (fun i -> let (_, ci, gi, _) = qget i in (clusters.(ci), groups.(gi))) in
-      let stepf = step evalf lookup mk_key split_key lus true in
+    if !has_burst && given_sched = None then "-" else begin
+      let reqs = List.init nreq (fun i -> let (_, ci, gi, sa) = qget i in ((clusters.(ci), groups.(gi)), sa)) in
+      (* the code's filtered view: the cached object is left alone, a copy is handed out (Cache.pure_op) *)
+      let stepf = step evalf (fun w -> (w, filt w)) lookup mk_key split_key lus true in
       let st = ref (init reqs) in
       let lq = ref (List.filter_map (function Lk (tm, _, _, _) -> Some tm | _ -> None) evs) in
       let flags = ref [] in
@@ -214,6 +222,11 @@ let run (line : string) : string =
                          | Some _, [] -> false) in
                if go then run_thread a !st.clock None limit false)
         done in
+      (match given_sched with
+       | Some sched ->
+           List.iter (fun (tid, tm) -> st := stepf !st (nat_of_int tid) tm) sched;
+           lq := []
+       | None ->
       for i = 0 to nreq - 1 do
         let (tq, _, _, _) = qget i in
         let next_q = if i + 1 < nreq then (let (x, _, _, _) = qget (i + 1) in Some x) else None in
@@ -224,14 +237,16 @@ let run (line : string) : string =
         run_refreshes own_limit rarr.(i);
         run_thread i tq rarr.(i) own_limit false;
         run_refreshes next_q None
-      done;
+      done);
       if !lq <> [] then flag (Printf.sprintf "EXTRA%d" (List.length !lq));
       let tr = List.rev !st.trace in
+      (* what each requester is handed: the object of its EvDeliver event (read from the model's heap) *)
+      let handed = Hashtbl.create 16 in
+      List.iter (function EvDeliver (tid, _, _, _, dv) -> Hashtbl.replace handed (int_of_nat tid) dv | _ -> ()) tr;
       let rs = List.filter_map (function
-        | EvReply (tid, _, _, _, c, g, v, _, _, _, _) ->
+        | EvReply (tid, _, _, _, c, g, _, _, _, _, _) ->
             let i = int_of_nat tid in
-            let (_, _, _, sa) = qget i in
-            let body = fmt_body (match v with None -> None | Some w -> Some (view filt sa w)) in
+            let body = fmt_body (match Hashtbl.find_opt handed i with Some dv -> dv | None -> None) in
             Some (Printf.sprintf "R %d %s %s %d %s" i (hex c) (hex g) (ntoks body) body)
         | _ -> None) tr in
       let lks = List.filter_map (function
